@@ -68,10 +68,28 @@ SPECS = {
         ("src/sqpack/data.rs", "StandardFileBlock"),
         ("src/sqpack/data.rs", "TextureLodBlock"),
         ("src/sqpack/data.rs", "TextureBlock"),
+        ("src/sqpack/data.rs", "ModelMemorySizes<u32>"),
+        ("src/sqpack/data.rs", "ModelMemorySizes<u16>"),
         ("src/sqpack/data.rs", "ModelFileBlock"),
         ("src/sqpack/data.rs", "FileInfo"),
         ("src/sqpack/data.rs", "Block"),
         ("src/sqpack/data.rs", "BlockHeader"),
+    ],
+    "BinrwMdl": [
+        ("src/model.rs", "ModelFileHeader"),
+        ("src/model.rs", "MeshLod"),
+        ("src/model.rs", "Mesh"),
+        ("src/model.rs", "Submesh"),
+        ("src/model.rs", "BoneTable"),
+        ("src/model.rs", "BoneTableV2"),
+        ("src/model.rs", "BoundingBox"),
+        ("src/model.rs", "TerrainShadowMesh"),
+        ("src/model.rs", "TerrainShadowSubmesh"),
+        ("src/model.rs", "ShapeStruct"),
+        ("src/model.rs", "ShapeMesh"),
+        ("src/model.rs", "ShapeValue"),
+        ("src/model.rs", "ElementId"),
+        ("src/model.rs", "ModelData"),
     ],
     "BinrwAux": [
         ("src/cmp.rs", "RacialScalingParameters"),
@@ -270,6 +288,23 @@ def find_item(src, name):
         rest = src[m.end():]
         r2 = rest.lstrip()
         if r2.startswith("<"):
+            # generic item: parameter names and body, for the instantiations named in the spec list
+            depth, j = 0, 0
+            while j < len(r2):
+                if r2[j] == "<":
+                    depth += 1
+                elif r2[j] == ">" and r2[j - 1] != "-":
+                    depth -= 1
+                    if depth == 0:
+                        break
+                j += 1
+            params = [re.match(r"\s*([A-Za-z_]\w*)", q).group(1) for q in split_top(r2[1:j])
+                      if re.match(r"\s*[A-Za-z_]", q) and not q.strip().startswith("const")]
+            r3 = r2[j + 1:].lstrip()
+            if r3.startswith("{"):
+                k2 = match_close(r3, 0)
+                if k2 > 0:
+                    return (m.group(1), attrs, (params, r3[1:k2]), "generic")
             return (m.group(1), attrs, None, "generic")
         mb = re.match(r":\s*(u8|u16|u32|u64|i8|i16|i32|i64)\s*\{", r2)
         if mb and m.group(1) == "struct":
@@ -377,7 +412,9 @@ def parse_type(t, ds, known, fields):
         raise Unsupported("count on `%s`" % t[:30])
     if t in PRIMS:
         return ".prim .%s" % t
-    base = t.split("::")[-1]
+    base = t.replace(" ", "")
+    if base not in known:
+        base = t.split("::")[-1]
     if base in known:
         it = known[base]
         if it["kind"] == "enum":
@@ -474,6 +511,7 @@ def parse_struct(attrs, body, bracket, known):
 
 
 def lean_name(rust):
+    rust = re.sub(r"\W+", "_", rust.replace(" ", "")).strip("_")
     return rust[0].lower() + rust[1:]
 
 
@@ -507,7 +545,7 @@ def previous_blocks(module):
         s = open(p).read()
     except OSError:
         return {}
-    return {m.group(1): m.group(2) for m in re.finditer(r"-- @begin (\w+)\n(.*?)\n-- @end \1\n", s, flags=re.S)}
+    return {m.group(1): m.group(2) for m in re.finditer(r"-- @begin (\S+)\n(.*?)\n-- @end \1\n", s, flags=re.S)}
 
 
 def generate(module, repo, want_json=False):
@@ -523,7 +561,20 @@ def generate(module, repo, want_json=False):
                     cache[rel] = strip_comments(open(os.path.join(repo, rel)).read())
                 except OSError:
                     cache[rel] = ""     # file moved / removed: every item of it is "not found"
-            found = find_item(cache[rel], rust)
+            targs = None
+            mg = re.fullmatch(r"(\w+)\s*<(.*)>", rust)
+            if mg:      # an instantiation `Name<T1, …>` of a generic struct
+                targs = [a.strip() for a in split_top(mg.group(2))]
+            found = find_item(cache[rel], mg.group(1) if mg else rust)
+            if found and targs is not None:
+                kind, attrs, body, bracket = found
+                if bracket == "generic" and body and len(body[0]) == len(targs):
+                    text = body[1]
+                    for prm, arg in zip(body[0], targs):
+                        text = re.sub(r"\b%s\b" % re.escape(prm), arg, text)
+                    found = (kind, attrs, text, "{")
+                else:
+                    found = (kind, attrs, None, "generic")
             if found:
                 kind, attrs, body, bracket = found
                 if kind == "bitflags":
